@@ -2,7 +2,10 @@ package main
 
 import (
 	"fmt"
+	"go/constant"
 	"go/token"
+	"go/types"
+	"sort"
 	"strings"
 
 	"golang.org/x/tools/go/ssa"
@@ -16,7 +19,7 @@ func init() {
 		Patterns: []string{"./pkg/upstream/cluster", "./pkg/upstream/healthcheck"},
 		Explanation: "(R1) atomic read-modify-write detector: a value obtained by atomic.Load*(p) that flows through arithmetic into atomic.Store*(p) on the same address is a lost-update hazard under any interleaving of two writers; accepted forms are a CompareAndSwap retry loop, atomic.Or/And, or both under one mutex. Applied to every function of the health packages (quick) and the whole module (thorough). " +
 			"(R2) shape of the flag algebra: Set writes old|mask, Clear writes old&^mask through the pointer parameter, the CAS's expected value is the very load it derived the new word from and failure loops back; Health() compares the whole word with 0; ContainHealthFlag masks. " +
-			"(R3) threshold automaton of the active checker: the opposite counter is reset on every result, the own counter is incremented only in the opposite state, compared (== or >=) with the configured threshold after the increment, and the flag flip and changed=true share one block; `changed` reaches both callbacks; per received result exactly one of HandleSuccess/HandleFailure runs and stale ids are ignored. (R4) GetHealthFlagPointer returns on every path the value Load/LoadOrStore returned; the registry is append-only; every store to simpleHost.healthFlags stores GetHealthFlagPointer(a) with a the value stored to addressString of the same object.",
+			"(R3) threshold automaton of the active checker: the opposite counter is reset on every result, the own counter is incremented only in the opposite state, compared (== or >=) with the configured threshold after the increment, and the flag flip and changed=true share one block; `changed` reaches both callbacks; per received result exactly one of HandleSuccess/HandleFailure runs and stale ids are ignored. (R4) GetHealthFlagPointer returns on every path the value Load/LoadOrStore returned; the registry is append-only; every store to simpleHost.healthFlags stores GetHealthFlagPointer(a) with a the value stored to addressString of the same object. (R3, round 6) every value stored into the checker's thresholds is a positive constant or non-zero on the edge it arrives by; SetHealthFlag/ClearHealthFlag with the constant FAILED_ACTIVE_HC is called only in sessionChecker.HandleFailure/HandleSuccess.",
 		Run:      runC16,
 		Thorough: c16Thorough,
 	})
@@ -143,6 +146,7 @@ func runC16(c *Ctx) {
 	c16Flags(c)
 	c16Automaton(c)
 	c16ThresholdsPositive(c)
+	c16ActiveFlagOwner(c)
 }
 
 func c16Thorough(c *Ctx) {
@@ -816,5 +820,66 @@ func c16ThresholdsPositive(c *Ctx) {
 	}
 	if n < 2 {
 		c.Unresolved("C16.R3", "stores to healthChecker.healthyThreshold / unhealthyThreshold")
+	}
+}
+
+// c16ActiveFlagOwner (R3): the active-health-check condition changes only at the thresholds.
+// FAILED_ACTIVE_HC is the automaton's state. "Unhealthy exactly after unhealthy_threshold consecutive failures, healthy
+// again exactly after healthy_threshold consecutive successes" can hold only if nobody else writes that condition: a
+// second writer (session removal, host update, an admin path) makes an address healthy with no successful check - and,
+// since the word is shared per address, under the feet of every other checker of that address, whose failure counter
+// has already passed the threshold and never fires again. Clause (who-may-call): a call of SetHealthFlag /
+// ClearHealthFlag with the constant FAILED_ACTIVE_HC occurs only in sessionChecker.HandleFailure / HandleSuccess.
+func c16ActiveFlagOwner(c *Ctx) {
+	var flagVal int64 = -1
+	if ap := c.Prog.ImportedPackage("mosn.io/api"); ap != nil {
+		if k, ok := ap.Pkg.Scope().Lookup("FAILED_ACTIVE_HC").(*types.Const); ok {
+			flagVal, _ = constant.Int64Val(k.Val())
+		}
+	}
+	if flagVal < 0 {
+		c.Unresolved("C16.R3", "mosn.io/api.FAILED_ACTIVE_HC")
+		return
+	}
+	owner := map[string]string{"SetHealthFlag": "HandleFailure", "ClearHealthFlag": "HandleSuccess"}
+	n := 0
+	ord := ordCounter{}
+	var fns []*ssa.Function
+	for fn := range c.all {
+		if fn.Pkg != nil && strings.HasPrefix(fn.Pkg.Pkg.Path(), "mosn.io/mosn/") && len(fn.Blocks) > 0 {
+			fns = append(fns, fn)
+		}
+	}
+	sort.Slice(fns, func(i, j int) bool { return fns[i].String() < fns[j].String() })
+	for _, fn := range fns {
+		forEachInstr(fn, false, func(f *ssa.Function, in ssa.Instruction) {
+			ci, ok := in.(ssa.CallInstruction)
+			if !ok {
+				return
+			}
+			name := methodName(ci.Common())
+			want, isMut := owner[name]
+			if !isMut {
+				return
+			}
+			args := argsOf(ci.Common())
+			if len(args) == 0 {
+				return
+			}
+			k, isK := constInt(args[len(args)-1])
+			if !isK || k != flagVal {
+				return
+			}
+			n++
+			top := f
+			for top.Parent() != nil {
+				top = top.Parent()
+			}
+			inOwner := top.Name() == want && top.Signature.Recv() != nil && strings.HasSuffix(typeName(top.Signature.Recv().Type()), "healthcheck.sessionChecker")
+			c.Check("C16.R3", ord.next(f, "active-flag-owner:"+name), in.Pos(), inOwner, "written by the threshold automaton ("+want+")", name+"(FAILED_ACTIVE_HC) is called in "+top.Name()+", outside the threshold automaton (sessionChecker."+want+"): the active-check condition of an address changes without the configured number of consecutive results - e.g. a failing host becomes healthy with no successful check, and other checkers of the same address never mark it unhealthy again")
+		})
+	}
+	if n < 2 {
+		c.Unresolved("C16.R3", "SetHealthFlag/ClearHealthFlag(FAILED_ACTIVE_HC) call sites (expected HandleFailure and HandleSuccess)")
 	}
 }
